@@ -119,6 +119,9 @@ def _parse(res, out):
             m = re.match(r"Error: Action property (\S+) is violated", line)
             if m:
                 res.violated = m.group(1)
+            m = re.match(r"Error: Temporal property (\S+) was violated", line)
+            if m:
+                res.violated = res.violated or m.group(1)
             if "Temporal properties were violated" in line:
                 res.violated = res.violated or "temporal"
             if "Deadlock reached" in line:
